@@ -53,7 +53,7 @@ def propagate_fft(wavefront, pixelscale, shape=None, oversample=2,
         shape_out = tuple(fft_shape)
         shape = (fft_shape[0]//oversample, fft_shape[1]//oversample)
     else:
-        shape = tuple(np.broadcast_to(shape, (2,)))
+        shape = tuple(int(s) for s in np.broadcast_to(shape, (2,)))
         if np.any(shape > fft_shape/oversample):
             raise ValueError(f'requested shape {tuple(shape)} is larger in at '
                             f'least one dimension than maximum propagation '
@@ -174,8 +174,10 @@ def propagate_dft(wavefront, pixelscale, shape=None, prop_shape=None,
     
     ptype_out = _propagate_ptype(wavefront.ptype, method='fraunhofer')
     
-    shape = np.asarray(wavefront.shape) if shape is None else np.broadcast_to(shape, (2,))
-    prop_shape = np.asarray(shape) if prop_shape is None else np.broadcast_to(prop_shape, (2,))
+    # shapes are plain integers whatever integer type they arrive in (shape *
+    # oversample must not wrap around in, say, uint8)
+    shape = np.asarray(wavefront.shape) if shape is None else np.broadcast_to(shape, (2,)).astype(int)
+    prop_shape = np.asarray(shape) if prop_shape is None else np.broadcast_to(prop_shape, (2,)).astype(int)
     shape_out = shape * oversample
     prop_shape_out = prop_shape * oversample
 
